@@ -122,11 +122,13 @@ def run_case(case):
         server = scenario.finish_setup(world, sc)
         world.populate({k: v for k, v in TREE.items() if k != "/"})
         sess = M.Session(users(), dict(TREE))
-        peer = RawPeer(world, "s0", reply_timeout=100.0)
+        host = "::1" if case.get("ipv6") else "127.0.0.1"
+        sess.ipv6_only = bool(case.get("ipv6"))
+        peer = RawPeer(world, "s0", host=host, reply_timeout=100.0)
         ops = [tuple(o) for o in case["ops"]]
 
         async def main():
-            await server.start("127.0.0.1", 2121)
+            await server.start(host, 2121)
             code, _ = await peer.connect()
             if code != "220":
                 viol.append({"clause": "wrong-reply", "subject": "greeting", "detail": f"greeting {code}"})
@@ -271,10 +273,11 @@ def main(argv=None):
     n = 4000 if quick else 600000
     with common.Pool() as pool:
         cases = [{"seed": a.seed * 100 + i, "ops": ops, "core": True} for i, ops in enumerate(CORE)]
+        cases.append({"seed": a.seed * 100 + 99, "ops": [["USER", "anonymous"], ["PASV", ""], ["PWD", ""], ["EPSV", ""], ["RETR", "f", {"connect": "before"}]], "core": True, "ipv6": True})
         for i in range(n):
             s = a.seed * 1_000_000 + i
             rnd = random.Random(s * 3 + 1)
-            cases.append({"seed": s, "ops": gen_history(rnd), "fs_delay": rnd.choice([None, None, [0.0001, 0.001]])})
+            cases.append({"seed": s, "ops": gen_history(rnd), "fs_delay": rnd.choice([None, None, [0.0001, 0.001]]), "ipv6": rnd.random() < 0.15})
         for c in cases[:2] + cases[len(CORE) : len(CORE) + 1]:
             c["want_sample"] = True
         for case, res in pool.map(run_case, cases, deadline=deadline, chunksize=8):
